@@ -66,8 +66,9 @@ def check_context(run, probe, cid, tag):
     # 1. stored value == own definition evaluated in the loaded context
     for name, dj in sorted(dump["definitions"].items()):
         run.evaluations += 1
-        if name in reg.quantity_dims:
+        if name in reg.quantity_dims and name not in dump["units"]:
             # quantity: its definition is dimensional, evaluated in the quantity namespace
+            # (a name that is also a unit keeps the unit's definition: judged as a unit below)
             try:
                 dims = eval_quantity(rinkast.from_json(dj["ast"]), reg)
                 if dims_key(dims) != reg.quantity_dims[name]:
